@@ -184,7 +184,13 @@ def spellings(seed):
     asc2 = {s: pool[i] for i, s in enumerate(ALPHA)}
     offs = 60 + rng.randrange(0, 200)
     uni = {s: get_symbol(offs + 7 * i) for i, s in enumerate(ALPHA)}
-    return {"ascii": asc, "ascii-shuffled": asc2, "unicode": uni}
+    # mixed: every second symbol stays a low ASCII letter, the others become
+    # non-ASCII (a step then carries both kinds, and a relabelling that starts
+    # again at 'a' can collide with the ASCII ones)
+    mixed = {s: (s if i % 2 == 0 else get_symbol(52 + i // 2 + (seed % 5)))
+             for i, s in enumerate(ALPHA)}
+    return {"ascii": asc, "ascii-shuffled": asc2, "unicode": uni,
+            "mixed": mixed}
 
 
 def respell(inputs, output, size_dict, m):
